@@ -272,7 +272,7 @@ def make_outcome(env, case):
         if src == "listener":
             return "listener", "handle", point, ("ret", value), ("status", expected_status(value), 0)
         return "handler", listener, point, ("ret", value), ("status", expected_status(value), 1)
-    _, kind, point, msg, listener, line, verb, ansi = case
+    _, kind, point, msg, listener, line, verb, ansi = case[:8]
     _, via, names = KIND[kind]
     cl = classes()
     es = [cl[n](msg) for n in names]
@@ -303,7 +303,28 @@ def run_case(env, case):
         verb, ansi = case[6], case[7]
     argv = ["app"] + list(tokens) + ([verb] if verb else []) + ["--ansi" if ansi else "--no-ansi"]
     app = build_app(env, log, plan)
-    out, err = BufferedOutputStream(), BufferedOutputStream()
+    stream_kind = case[8] if len(case) > 8 else "buffered"
+    if stream_kind == "buffered":
+        out, err = BufferedOutputStream(), BufferedOutputStream()
+    else:
+        # real StreamOutputStreams over text streams as an embedding application may hand them in: one whose
+        # `encoding` names no codec Python knows (vendor terminal wrappers), one without an encoding at all
+        import io as _io
+        from clikit.io.output_stream.stream_output_stream import StreamOutputStream
+
+        class Text(_io.StringIO):
+            encoding = {"stream-unknown-encoding": "x-vendor-terminal", "stream-no-encoding": None, "stream-ascii": "ascii"}[stream_kind]
+
+        class S(StreamOutputStream):
+            def fetch(self):
+                return self._raw.getvalue()
+
+        def mk():
+            raw = Text()
+            st_ = S(raw)
+            st_._raw = raw
+            return st_
+        out, err = mk(), mk()
     try:
         status = app.run(ArgvArgs(list(argv)), StringInputStream(""), out, err)
     except BaseException as e:  # noqa - nothing at all may escape run() here
@@ -386,7 +407,8 @@ def blocks(tier):
     lines : the same product for the message "x" on the two other command lines
     msg   : messages of exactly K fragments: kinds x verbosity x ANSI at point 'none', no listener
             (the dimensions the report rendering can depend on)
-    cli   : messages of 1..K fragments placed on the command line (unknown command / unknown option)"""
+    cli   : messages of 1..K fragments placed on the command line (unknown command / unknown option)
+    streams: real StreamOutputStreams (unknown / missing / ASCII encoding name) x 4 kinds x verbosity x ANSI"""
     k = bound(tier)
     for vname, _ in returns():
         yield ("ret", vname)
@@ -402,6 +424,8 @@ def blocks(tier):
                 yield ("lines", msg, kind[0])
         if n >= 1:
             yield ("cli", msg)
+    for sk in ("stream-unknown-encoding", "stream-no-encoding", "stream-ascii"):
+        yield ("streams", sk)
 
 
 def block_cases(block):
@@ -423,6 +447,12 @@ def block_cases(block):
     elif part == "cli":
         for shape, verb, ansi in itertools.product(["command", "option"], VERBOSITY, (False, True)):
             yield ["cli", shape, x, verb, ansi]
+    elif part == "streams":
+        # output streams other than buffers
+        for kind in ("Exception", "AppError", "from2", "exec"):
+            for verb in VERBOSITY:
+                for ansi in (False, True):
+                    yield ["exc", kind, "none", "x", "none", 0, verb, ansi, x]
 
 
 def nontrivial(case):
